@@ -30,7 +30,7 @@ structure DriverState where
   filter : Driver.Filter.DState := ⟨false, false, []⟩
   partitioner : Driver.Partitioner.DState := {}
   pipemon : Driver.Pipeline.MState := []
-  connmgr : Driver.ConnManager.DState := .none
+  connmgr : Driver.ConnManager.DState := {}
   marshal : Driver.Marshal.DState := {}
   kinesis : Driver.Kinesis.DState := {}
   kafka : Driver.Kafka.DState := {}
